@@ -467,7 +467,50 @@ def chunk_parents_by_content_fn():
                 coll = AnnotationCollection(feature_collections=[fc], sequence_name="chr1", parent_or_seq_chunk_parent=whole)
                 sub = coll.query_by_position(0, n, completely_within=False)
                 ok = ok and str(list(sub.iter_children())[0].feature_intervals[0].get_spliced_sequence()) == sq
+            # a location that already lives on the first chunk, re-lifted onto the second chunk (same name, window, strand; other bases), reads the SECOND
+            # chunk's bases: "already on this chunk" must not be decided without looking at the sequence
+            from inscripta.biocantor.exc import MismatchedParentException
+
+            pa, pb = seq_chunk_to_parent(seqs[0], "chr1", w, w + n), seq_chunk_to_parent(seqs[1], "chr1", w, w + n)
+            a, b = max(0, pos - 3), min(n, pos + 3)
+            loc = SingleInterval(a, b, MINUS, parent=pa)
+            try:
+                moved = AbstractInterval.liftover_location_to_seq_chunk_parent(loc, pb)
+                ok = ok and str(moved.extract_sequence()) == str(SingleInterval(a, b, MINUS, parent=pb).extract_sequence()) and (moved.start, moved.end) == (a, b)
+            except MismatchedParentException:
+                pass  # refusing a chunk of a different sequence is equally faithful
             return ok
+
+    return fn
+
+
+def explicit_parent_no_leak_fn():
+    """Parent(sequence=S, parent=P): the hierarchy is a property of the Parent object built, not of the caller's Sequence S - S is left as it was (no parent),
+    an equal copy of S is still recognised as the same sequence, S can be placed on another chromosome, and a location on free-standing S has no ancestors"""
+
+    def fn(ps, pl, cs, cl):
+        ps, pl, cs, cl = concretize(ps, pl, cs, cl)
+        with untraced():
+            seq = Sequence(TAG12[ps: ps + pl], Alphabet.NT_EXTENDED, id="mid", type="type0")
+            copy = Sequence(TAG12[ps: ps + pl], Alphabet.NT_EXTENDED, id="mid", type="type0")
+            top = Parent(id="top", sequence_type="type1", location=SingleInterval(ps, ps + pl, MINUS))
+            placed = Parent(id="mid", sequence_type="type0", sequence=seq, parent=top)
+            child = SingleInterval(cs, cs + cl, PLUS, parent=placed)
+            lifted = child.lift_over_to_first_ancestor_of_type("type1")
+            ok = (lifted.start, lifted.end) == (ps + pl - cs - cl, ps + pl - cs) and lifted.strand is MINUS
+            ok = ok and seq.parent is None and seq == copy and copy == seq
+            free = SingleInterval(cs, cs + cl, PLUS, parent=Parent(id="mid", sequence_type="type0", sequence=seq))
+            ok = ok and not free.has_ancestor_of_type("type1")
+            try:
+                free.lift_over_to_first_ancestor_of_type("type1")
+                ok = False
+            except NoSuchAncestorException:
+                pass
+            ok = ok and child.lift_over_to_sequence(copy) is not None
+            other_top = Parent(id="top2", sequence_type="type1", location=SingleInterval(0, pl, PLUS))
+            placed2 = Parent(id="mid", sequence_type="type0", sequence=seq, parent=other_top)
+            l2 = SingleInterval(cs, cs + cl, PLUS, parent=placed2).lift_over_to_first_ancestor_of_type("type1")
+            return ok and (l2.start, l2.end) == (cs, cs + cl) and l2.parent.id == "top2"
 
     return fn
 
@@ -607,6 +650,11 @@ def obligations(tier):
                         "is not (has_ancestor_sequence False, lift_over_to_sequence and re-lifting onto its chunk refused)",
                    bounds="lengths 4097, 65537, 100001, 131073%s x edited base first/middle/last/65535/65536/99999 x chunk strand (closed by the solver)" % (
                        "" if quick else ", 1000003"), examples=[dict(ln=2, where=1, cstrand=0), dict(ln=0, where=2, cstrand=1)]))
+    out.append(Obl("explicit_parent_does_not_leak_into_the_sequence", explicit_parent_no_leak_fn(), dict(ps=int, pl=int, cs=int, cl=int),
+                   lambda ps, pl, cs, cl: 0 <= ps and ps <= 3 and 4 <= pl and pl <= 8 and 0 <= cs and 1 <= cl and cs + cl <= pl and cl <= 3, budget=300, cost=20,
+                   desc="hierarchy level declared as Parent(sequence=S, parent=P): lift-over composes through it, and the caller's Sequence S is untouched - no parent "
+                        "attached, equal to its copy, usable under another chromosome, without ancestors when used free-standing",
+                   bounds="placement 4..8 nt at 0..3 on a 12-nt top sequence, child intervals of 1..3 nt (realised)", examples=[dict(ps=2, pl=6, cs=1, cl=2)]))
     out.append(Obl("lift_twin_hierarchies", twin_hierarchies_fn(), dict(cs=int, cl=int, order=int),
                    lambda cs, cl, order: 0 <= cs and 1 <= cl and cs + cl <= 50 and 0 <= order and order <= 3 and (cs % 7 == 1) and (cl % 9 == 2 or cl == 1), budget=300, cost=20,
                    desc="two hierarchies identical below the chromosome level, one with and one without an assembly above it, built in either order in one process "
